@@ -120,24 +120,22 @@ def emit(vf, exp, path, fr, ind):
 pub fn decode(par: &mut Parser) -> (r: Result<DataType, RtcmError>)
     ensures final(par).nz(),
 { unimplemented!() }""").replace('\n', '\n' + ind))
-    vf.emit('\n'.join(ind + l for l in (DEC_SPEC % {'SAT': SAT, 'SIG': SIG, 'SATM': satmod, 'SIGM': sigmod}).split('\n')))
+    vf.emit('\n'.join(ind + l for l in ((DEC_SPEC + DEC_WIRE) % {'SAT': SAT, 'SIG': SIG, 'SATM': satmod, 'SIGM': sigmod}).split('\n')))
     sp = FnSpec(); sp.ret = 'r'; sp.body_props = {'C02', 'C10'}
     sp.rename = 'decode_checked'
     sp.attrs = '#[verifier::rlimit(80)]'
     sp.replace = [(r'\b(asm|par)\.(put|parse)::<(\w+)>\(', r'\1.\2_\3(', 'R6 generic L0 call monomorphised')]
     sp.ensures = [
         ('l2.%s.decode.rows_are_the_mask_cells' % pid, {'C10', 'C01'},
-         # (the two trivially true length conjuncts put the row views into the solver's term graph as ground terms; without them the witness is not matched)
-         'r is Ok ==> r->Ok_0.satellite_data@.len() >= 0 && r->Ok_0.signal_data@.len() >= 0\n'
-         '    && exists|sm: u64, gm: u32, cm: u64| #[trigger] decoded_ok(old(par).rest(), sm, gm, cm, r->Ok_0.satellite_data@, r->Ok_0.signal_data@)'),
+         'r is Ok ==> decoded_wire(old(par).rest(), r->Ok_0.satellite_data@, r->Ok_0.signal_data@)'),
+        ('l2.%s.decode.empty_masks_give_empty_lists' % pid, {'C10', 'C01'},
+         '(old(par).rest().len() >= 96 && wire_sm(old(par).rest()) == 0 && wire_gm(old(par).rest()) == 0)\n'
+         '    ==> r is Ok && r->Ok_0.satellite_data@.len() == 0 && r->Ok_0.signal_data@.len() == 0 && final(par).rest() == old(par).rest().subrange(96, old(par).rest().len() as int)'),
         ('l2.%s.decode.error_kinds' % pid, {'C10', 'C02'},
          'r is Err ==> (r->Err_0 is BufferOverflow || r->Err_0 is InvalidSatelliteSignalCount || r->Err_0 is InvalidSignalId)'),
         ('l2.%s.decode.cell_count_out_of_range_rejected' % pid, {'C10', 'C02'},
-         '''(exists|sm: u64, gm: u32| #![trigger crate::bits_of_int(sm as int, 64), crate::bits_of_int(gm as int, 32)] old(par).rest().len() >= 96
-            && crate::bits_of_int(sm as int, 64) == old(par).rest().subrange(0, 64) && crate::bits_of_int(gm as int, 32) == old(par).rest().subrange(64, 96)
-            && !(sm == 0 && gm == 0)
-            && (crate::msg::ids64(sm, 64).len() * crate::msg::ids32(gm, 32).len() > 64 || crate::msg::ids64(sm, 64).len() * crate::msg::ids32(gm, 32).len() == 0))
-        ==> r is Err && r->Err_0 is InvalidSatelliteSignalCount'''),
+         '(old(par).rest().len() >= 96 && !(wire_sm(old(par).rest()) == 0 && wire_gm(old(par).rest()) == 0) && (wire_n(old(par).rest()) > 64 || wire_n(old(par).rest()) == 0))\n'
+         '    ==> r is Err && r->Err_0 is InvalidSatelliteSignalCount'),
     ]
     B = sp.inserts.append
     B(('before', 'let sat_mask = par.parse_U64(64)?;', 0, 'let ghost verif_s0 = par.rest();'))
@@ -148,15 +146,18 @@ pub fn decode(par: &mut Parser) -> (r: Result<DataType, RtcmError>)
     crate::msg::lemma_ids64_len(sat_mask, 64); crate::msg::lemma_ids32_len(sig_mask, 32);
     crate::msg::lemma_cnt64_popcount(sat_mask, 64); crate::msg::lemma_cnt32_popcount(sig_mask, 32);
     crate::lemma_pow2_64_32();
-    assert forall|sm: u64, gm: u32| crate::bits_of_int(sm as int, 64) == verif_s0.subrange(0, 64) && crate::bits_of_int(gm as int, 32) == verif_s0.subrange(64, 96)
-        implies sm == sat_mask && gm == sig_mask by { crate::lemma_bits_inj(sm as int, sat_mask as int, 64); crate::lemma_bits_inj(gm as int, sig_mask as int, 32); }
+    crate::lemma_uval_bits(sat_mask as int, 64); crate::lemma_uval_bits(sig_mask as int, 32);
+    assert(wire_sm(verif_s0) == sat_mask && wire_gm(verif_s0) == sig_mask);
 }'''))
-    B(('before', 'return Ok(', 0,
-       'proof { assert(decoded_ok(verif_s0, sat_mask, sig_mask, 0u64, Seq::<%s>::empty(), Seq::<%s>::empty())); }' % (SAT, SIG)))
+    if 'return Ok(' in fr.dec_body:    # the early return for two zero masks (when it is gone Verus decides `empty_masks_give_empty_lists`)
+        B(('before', 'return Ok(', 0,
+           'proof { assert(decoded_ok(verif_s0, sat_mask, sig_mask, 0u64, Seq::<%s>::empty(), Seq::<%s>::empty())); '
+           'assert(par.rest() =~= verif_s0.subrange(96, verif_s0.len() as int)); assert(decoded_wire(verif_s0, Seq::<%s>::empty(), Seq::<%s>::empty())); }' % (SAT, SIG, SAT, SIG)))
     B(('after', 'let cell_mask = par.parse_U64(sat_len * sig_len)?;', 0,
-       'proof { crate::lemma_consume(verif_s0, 96, (sat_len * sig_len) as int); }'))
-    B(('before', 'Ok(%s {' % fr.struct.name, 1,
-       'proof { assert(decoded_ok(verif_s0, sat_mask, sig_mask, cell_mask, satellite_data@, signal_data@)); }'))
+       'proof { crate::lemma_consume(verif_s0, 96, (sat_len * sig_len) as int); crate::lemma_uval_bits(cell_mask as int, (sat_len * sig_len) as nat); '
+       'assert(wire_n(verif_s0) == sat_len * sig_len); assert(wire_cm(verif_s0) == cell_mask); }'))
+    B(('before', 'Ok(%s {' % fr.struct.name, 1 if 'return Ok(' in fr.dec_body else 0,
+       'proof { assert(decoded_ok(verif_s0, sat_mask, sig_mask, cell_mask, satellite_data@, signal_data@)); assert(decoded_wire(verif_s0, satellite_data@, signal_data@)); }'))
     sp.inserts.append(('after', 'let sig_len = mask_len_u32(sig_mask);', 0,
                        'proof { let a = sat_len as int; let b = sig_len as int; assert(a * b <= 64 * 32) by(nonlinear_arith) requires 0 <= a <= 64, 0 <= b <= 32; }'))
     vgen.emit_fn(vf, exp, path + ['fn:decode'], sp, label='%s::decode' % '::'.join(path[1:]), indent=ind, keep_pub=True)
@@ -185,6 +186,17 @@ pub open spec fn decoded_ok(rest: Seq<bool>, sm: u64, gm: u32, cm: u64, s: Seq<%
             &&& s.len() == sats.len() && forall|i: int| 0 <= i < sats.len() ==> (#[trigger] s[i]).satellite_id == sats[i]
             &&& c.len() == cells.len() && forall|i: int| 0 <= i < cells.len() ==> (#[trigger] c[i]).satellite_id == cells[i].0 && to_sig_spec(cells[i].1) == Some(c[i].signal_id)
         }
+}
+'''
+
+DEC_WIRE = '''
+// the same with the three masks read off the wire (no witnesses): sm/gm = the first 64/32 bits, cm = the next |sats|*|sigs| bits
+pub open spec fn wire_sm(rest: Seq<bool>) -> u64 { crate::uval(rest.subrange(0, 64)) as u64 }
+pub open spec fn wire_gm(rest: Seq<bool>) -> u32 { crate::uval(rest.subrange(64, 96)) as u32 }
+pub open spec fn wire_n(rest: Seq<bool>) -> nat { crate::msg::ids64(wire_sm(rest), 64).len() * crate::msg::ids32(wire_gm(rest), 32).len() }
+pub open spec fn wire_cm(rest: Seq<bool>) -> u64 { crate::uval(rest.subrange(96, 96 + wire_n(rest) as int)) as u64 }
+pub open spec fn decoded_wire(rest: Seq<bool>, s: Seq<%(SAT)s>, c: Seq<%(SIG)s>) -> bool {
+    rest.len() >= 96 && decoded_ok(rest, wire_sm(rest), wire_gm(rest), if wire_sm(rest) == 0 && wire_gm(rest) == 0 { 0u64 } else { wire_cm(rest) }, s, c)
 }
 '''
 
